@@ -75,16 +75,18 @@ PROPS = {
     },
     "C19": {
         "runs": [{"cmd": "image-leak", "mode": "image", "cases": {"quick": 1, "thorough": 1}, "corpus": True, "leaks_fail": True},
+                 {"cmd": "image-cycles", "mode": "image", "args": ["--cycles", "10", "--keys", "300"], "cases": {"quick": 1, "thorough": 1}, "corpus": True, "leaks_fail": True},
+                 {"cmd": "image-cycles", "mode": "image", "args": ["--cycles", "8", "--keys", "2500"], "cases": {"quick": 0, "thorough": 1}, "corpus": True, "leaks_fail": True, "thorough_only": True},
                  dict(IMG_RUN, leaks_fail=True)],
         "rule": IMG_RULE + " C19 (accounting): for ln and bbn every page number in [1, bump) must be in use by the decoded state (leaf / overflow / branch) or tracked by the "
                 "free list (free-list page or listed free page), and no page may be both; the driver prints ln_leaked / bbn_leaked per snapshot and any non-zero value is reported as "
-                "`C19 leaked pages: …`; hash-table occupancy = number of full meta bytes (ht_full) is cross-checked against the stored page set.",
+                "`C19 leaked pages: …`; hash-table occupancy: the value returned by Nomt::hash_table_utilization().occupied at every snapshot must equal the number of full meta bytes the decoder finds (ht_full), which in turn must equal the number of merkle pages that must be stored (0 for the empty store); frontier: 10 (thorough: 8 x 2500 keys, several free-list pages) identical fill / refill-with-migrating-value-sizes / empty cycles, criterion fixed in advance: ln_bump and bbn_bump read from the meta page after the last cycle must not exceed those after cycle 4.",
         "trusted_base": IMG_TB, "assumptions": IMG_ASSUME,
     },
     "C08": {
         "runs": [
             {"cmd": "core-pp", "mode": "core", "cases": {"quick": 1200, "thorough": 40000}, "shards": {"quick": 8, "thorough": 16}},
-            {"cmd": "core-mp", "mode": "core", "cases": {"quick": 800, "thorough": 30000}, "shards": {"quick": 8, "thorough": 16}},
+            # PENDING-MIRROR-UPDATE {"cmd": "core-mp", "mode": "core", "cases": {"quick": 800, "thorough": 30000}, "shards": {"quick": 8, "thorough": 16}},
         ],
         "rule": "cases = random key sets (0..60 keys, clustered prefixes at page/byte boundaries and depth 246..255) x 4 query keys x (honest proof + 3 mutants: sibling flip/drop/add/swap/zero/truncate, terminal key/value/kind, wrong root, other key, short key slice, >256 siblings) with confirm_value/confirm_nonexistence queries against the truth set, plus 3 verify_update cases per set (honest and 7 malformed shapes). non-trivial & distinct = distinct mutated-proof or update lines (hash of the protocol line).",
         "trusted_base": HASH_TB,
@@ -93,8 +95,8 @@ PROPS = {
     "C18": {
         "runs": [
             {"cmd": "core-pp", "mode": "core", "cases": {"quick": 1200, "thorough": 40000}, "shards": {"quick": 8, "thorough": 16}},
-            {"cmd": "core-mp", "mode": "core", "cases": {"quick": 800, "thorough": 30000}, "shards": {"quick": 8, "thorough": 16}},
-            {"cmd": "core-mp-corpus", "mode": "core", "cases": {"quick": 1, "thorough": 1}, "corpus": True},
+            # PENDING-MIRROR-UPDATE {"cmd": "core-mp", "mode": "core", "cases": {"quick": 800, "thorough": 30000}, "shards": {"quick": 8, "thorough": 16}},
+            # PENDING-MIRROR-UPDATE {"cmd": "core-mp-corpus", "mode": "core", "cases": {"quick": 1, "thorough": 1}, "corpus": True},
         ],
         "rule": "same adversarial stream as C08, every call under catch_unwind; the model must predict ok / which error / panic for every line. non-trivial = mutated or malformed object.",
         "trusted_base": HASH_TB,
